@@ -25,7 +25,9 @@ RULE = ('cases = random flat (1-5 states) or hierarchical (2-4 top-level states,
         'after, six machine-level lists), every option (send_event, auto_transitions, model_attribute, '
         'model_override, ignore_invalid_triggers None/False/True at both levels, queued, name), internal / '
         'reflexive / nested local transitions, 1-3 models of 3 classes in arbitrary (resolved) states x a script '
-        'of 0-7 later operations (read markup, add_states in any scope, add_transition with list / wildcard '
+        '(state names are drawn from plain letters or from a pool that stresses the auto-transition heuristic: names '
+        'starting with t / o / _, containing "to_", prefixes and suffixes of each other; user events that resemble '
+        'automatic ones without being of the form to_<...>) of 0-7 later operations (read markup, add_states in any scope, add_transition with list / wildcard '
         'sources and "=" / None destinations, remove_transition, on_enter_/on_exit_/on_final_<state>(cb), the '
         'hierarchical on_enter/on_exit(state, cb) helpers, '
         'before_/after_/prepare_<event>(cb), model moved, model added) x a history of 3-10 events (declared, '
@@ -33,10 +35,16 @@ RULE = ('cases = random flat (1-5 states) or hierarchical (2-4 top-level states,
         'final markup; every 10th case is drawn from one of the three known-finding classes (KF-C14-1/2/3). Non-trivial: the '
         'script contains a modification after a markup read (cache must be refreshed) and the final markup has '
         '>= 2 transitions of which one carries a condition or callback list, distinct by hash of the case.')
+_NOTE = ('(state names are drawn from plain letters or from a pool that stresses the auto-transition heuristic: names '
+         'starting with t / o / _, containing "to_", prefixes and suffixes of each other; user events that resemble '
+         'automatic ones without being of the form to_<...>) ')
+assert _NOTE in RULE
+RULE = RULE.replace(_NOTE, '').replace('machine descriptions with', 'machine descriptions ' + _NOTE + 'with', 1)
 ASSUMPTIONS = ['callbacks are given by name (strings) and resolved on the model; they neither raise nor call back '
                'into the machine',
                'state names and triggers are identifiers without the separator "_" (hierarchical) that are not '
-               '"*" or "="; triggers do not start with "to_" (known finding KF-C14-2 otherwise)',
+               '"*" or "="; no user event is named to_<state> with a transition from every state of its scope (known '
+               'finding KF-C14-2 otherwise)',
                'machine-level callback lists, `initial` and `auto_transitions_markup` are not reassigned after '
                'construction (the markup captures the lists once; DESIGN section 9)',
                'automatic to_<state> events are not stored in the model (except for flat machines with a custom '
@@ -422,7 +430,20 @@ def impl_c14(case):
 
 # ------------------------------------------------------------------ generation
 TOP = ['A', 'B', 'C', 'D', 'E', 'F', 'G']
-LOW = ['a', 'b', 'c', 'd', 'x', 'y', 'z', 'u', 'v', 'w']
+LOW = ['a', 'b', 'c', 'd', 'x', 'y', 'z', 'u', 'v', 'w', 'o', 't', 'to', 'ot', 'too', 'top', 'op', 'open']
+# Names that stress the auto-transition heuristic (it cuts the prefix 'to_' off the event name and looks the rest
+# up as a state): names starting with 't', 'o' or '_', names containing 'to_', names that are prefixes / suffixes of
+# each other.  Hierarchical names must not contain the separator '_'.
+FLAT_NAMES = ['open', 'opened', 'op', 'tripped', 'too', 'to', 'ot', 't', 'o', '_x', 'x', 'to_x', 'a_to_b', 'to_to',
+              'tot_o', 'o_t', 'otto', '__t', 'stop', 'A', 'B', 'to_', 'oto_op']
+HSM_NAMES = ['open', 'opened', 'op', 'tripped', 'too', 'to', 'ot', 't', 'o', 'x', 'otto', 'stop', 'A', 'B', 'toto']
+TRIGGERS = ['e0', 'e1', 'e2', 'e3', 'toggle', 'tock', 'ot_go']
+
+
+def near_auto_trigger(r, tgt):
+    """a user trigger that resembles an automatic one but is not of the form to_<...> (inside the envelope)"""
+    t = r.choice(['to' + tgt, 'tox' + tgt, 'ato_' + tgt, 'To_' + tgt, 'ot_' + tgt, 'to' + tgt + '_'])
+    return 'tox' + tgt if t.startswith('to_') else t
 
 
 class G(object):
@@ -465,7 +486,7 @@ class G(object):
             elif x < 0.8:
                 s['initial'] = list(names)
             for _ in range(r.randint(0, 3)):
-                s['transitions'].append(self.trans(r.choice(['e0', 'e1', 'e2', 'n0', 'n1']), names, names))
+                s['transitions'].append(self.trans(r.choice(['e0', 'e1', 'e2', 'n0', 'n1', 'tock']), names, names))
         return s
 
     def trans(self, trigger, sources, dests):
@@ -528,18 +549,31 @@ def gen(rng, i, tier):
         auto = False
     override = r.random() < 0.15
     ntop = r.randint(2, 4) if hsm else r.randint(1, 5)
-    names = TOP[:ntop]
+    if r.random() < 0.4:
+        names = TOP[:ntop]
+        pool = TOP
+    else:
+        pool = HSM_NAMES if hsm else FLAT_NAMES
+        names = r.sample(pool, ntop)
     states = [g.state(n, hsm, mign, 1) for n in names]
     if kf == 1:
         r.choice(states)['ignore'] = False
     paths = all_paths(states)
     joined = ['_'.join(p) for p in paths]
-    triggers = ['e0', 'e1', 'e2', 'e3']
+    triggers = TRIGGERS
     transitions = [g.trans(r.choice(triggers), joined, joined) for _ in range(r.randint(0, 6))]
+    if kf == 0 and r.random() < 0.3:
+        # a look-alike of an automatic event: from every top-level state to one target, name not 'to_<...>'
+        tgt = r.choice(names)
+        t = g.trans(near_auto_trigger(r, tgt), names, [tgt])
+        transitions += [dict(t, source=n, dest=tgt) for n in names]
     if kf == 2:
         tgt = r.choice(names)
         t = g.trans('to_' + tgt, names, [tgt])
-        transitions += [dict(t, source=n, dest=tgt) for n in names]
+        srcs = list(names)
+        if len(srcs) > 1 and r.random() < 0.4:
+            srcs.remove(r.choice(srcs))      # not from every state: the heuristic must NOT fire, nothing is lost
+        transitions += [dict(t, source=n, dest=tgt) for n in srcs]
     ini = r.choice(names)
     if hsm and r.random() < 0.2:
         ini = '_'.join(r.choice(paths))
@@ -561,7 +595,8 @@ def gen(rng, i, tier):
     nmodels = len(models)
     ops = []
     nops = r.randint(0, 7)
-    fresh_top = [n for n in TOP if n not in names]
+    fresh_top = [n for n in pool if n not in names]
+    r.shuffle(fresh_top)
     for _ in range(nops):
         x = r.random()
         paths = all_paths(sh_states)
@@ -603,7 +638,7 @@ def gen(rng, i, tier):
             src = None if y < 0.25 else r.sample(srcs_all, r.randint(1, min(2, len(srcs_all))))
             z = r.random()
             dst = ['none'] if z < 0.15 else ['same'] if (z < 0.35 and src is not None) else ['to', r.choice(dests)]
-            trg = r.choice(['e0', 'e1', 'e4', 'e5'] if not scope else ['e1', 'n1', 'n2'])
+            trg = r.choice(['e0', 'e1', 'e4', 'e5', 'toggle', 'tock'] if not scope else ['e1', 'n1', 'n2', 'tock'])
             ops.append(['add_trans', scope, trg, src, dst, g.cbs(1, 0.6, True), g.cbs(1, 0.8, True), g.cbs(1, 0.7),
                         g.cbs(1, 0.6), g.cbs(1, 0.6)])
             if not scope:
@@ -650,7 +685,8 @@ def gen(rng, i, tier):
             nmodels += 1
     # ---- history
     paths = all_paths(sh_states)
-    evs = ['e0', 'e1', 'e2', 'e3', 'e4', 'n0', 'n1', 'zz']
+    evs = ['e0', 'e1', 'e2', 'e3', 'e4', 'n0', 'n1', 'zz', 'toggle', 'tock', 'ot_go']
+    evs += [t['trigger'] for t in transitions if t['trigger'] not in evs and not t['trigger'].startswith('to_')]
     if auto:
         pre = 'to_' if (hsm or attr == 'state') else 'to_%s_' % attr
         evs += [pre + '_'.join(r.choice(paths)) for _ in range(3)]
@@ -681,30 +717,27 @@ def _all_sdicts(case):
                 yield s
 
 
-def _all_triggers(case):
-    def walk(l):
-        for s in l:
-            for t in s['transitions']:
-                yield t['trigger']
-            for x in walk(s['children']):
-                yield x
-    for t in case['desc']['transitions']:
-        yield t['trigger']
-    for x in walk(case['desc']['states']):
-        yield x
-    for o in case['ops']:
-        if o[0] == 'add_trans':
-            yield o[2]
-        if o[0] == 'add_state':
-            for x in walk([o[2]]):
-                yield x
+def _auto_lookalike_swallowed(case):
+    """KF-C14-2, exactly: in the FINAL machine a root-scope user event to_<top-level state> has a transition from
+    every top-level state, so the heuristic takes it for an automatic event.  (The generator declares to_<...>
+    triggers only in the description's root transitions and never removes them; top-level states only grow.)"""
+    d = case['desc']
+    top = [s['name'] for s in d['states']] + [o[2]['name'] for o in case['ops'] if o[0] == 'add_state' and not o[1]]
+    by_trigger = {}
+    for t in d['transitions']:
+        if t['trigger'].startswith('to_'):
+            by_trigger.setdefault(t['trigger'], set()).add(t['source'])
+    for trg, srcs in by_trigger.items():
+        if trg[3:] in top and len(srcs) == len(top):
+            return True
+    return False
 
 
 def kf_class(case):
     d = case['desc']
     if d['ignore'] is True and any(s['ignore'] is False for s in _all_sdicts(case)):
         return 'KF-C14-1'
-    if any(t.startswith('to_') for t in _all_triggers(case)):
+    if _auto_lookalike_swallowed(case):
         return 'KF-C14-2'
     if not case['hsm'] and d['auto'] and d['attr'] != 'state':
         return 'KF-C14-3'
